@@ -166,6 +166,21 @@ def shard(shard_i, nshards, payload):
             if ok and len(res.samples) < 2 and i < 4 * nshards:
                 res.sample({"canonical": spell.canonical(toks)[:200],
                             "respelled": spell.respell(toks, rng, **DIMS[-1][1])[:300]})
+        # one very long flat expression (hundreds to thousands of operands) under every layout: limits that count tokens
+        # must not count the white space and comments between them
+        for i in range(shard_i, payload.get("n_long", 16), nshards):
+            rng = core.rng_for(seed, "c08long", i)
+            n = rng.choice([300, 700, 1500, 2500, 3000])
+            op = rng.choice(["+", "-", "*", "OR", "AND", "XOR"])
+            operand = gen.I("b") if op.isalpha() else gen.I("x")
+            optok = gen.K(op) if op.isalpha() else gen.O(op)
+            toks = [gen.K("PROGRAM"), gen.I("p"), gen.K("VAR"), gen.I("x"), gen.O(":"), gen.K("INT"), gen.O(";"), gen.I("b"), gen.O(":"),
+                    gen.K("BOOL"), gen.O(";"), gen.K("END_VAR"), operand, gen.O(":="), operand]
+            for _ in range(n - 1):
+                toks += [optok, operand if rng.random() < 0.9 else (gen.L("1") if not op.isalpha() else gen.K("TRUE"))]
+            toks += [gen.O(";"), gen.K("END_PROGRAM")]
+            res.count("long-chain")
+            compare(probe, res, toks, {"expr.very-long-chain"}, rng, [("trivia", dict(trivia=True)), ("all", DIMS[-1][1])], with_verdict=True)
         # valid and single-fault units (the analyzer's verdict means something there): identifiers re-cased per occurrence
         import vgen
         for i in range(shard_i, payload["n_units"], nshards):
